@@ -59,7 +59,9 @@ ASSUMPTIONS = [
     "(DELETE is fired when a session is still live); network failures of that DELETE are not injected",
 ]
 
-FIXED_SCRIPTS = ["o", "r", "c", "n", "co", "oc", "cc", "oo", "or", "rc", "coc", "oco", "ox", "cx", "cox", "Oc", "cO", "OO", "ccO", "ro"]
+FIXED_SCRIPTS = ["o", "r", "c", "n", "co", "oc", "cc", "oo", "or", "rc", "coc", "oco", "ox", "cx", "cox", "Oc", "cO", "OO", "ccO", "ro",
+                 # 'D' = the operator's drain() lands while the request is already inside its method
+                 "Do", "DO", "cDo", "rDO"]
 ALPHABET = "ocrnOx"
 PREFIXES = ["", "/vgi"]
 IDENT_PAIRS: list[tuple[str | None, str | None]] = [(None, "d|bob"), ("d|alice", "d|bob"), ("d|alice", None), ("ab|c", "a|bc")]
@@ -98,6 +100,7 @@ def run(ctx: RunCtx) -> None:
         app = cluster.workers[0].app
         registry = S.registry_of(app)
         handle = drain_handle(app)
+        world.on_drain = handle.drain  # type: ignore[attr-defined]
         assert handle is not None
         clients = []
         for name, ident in zip("AB", ids):
@@ -174,6 +177,14 @@ def run(ctx: RunCtx) -> None:
                 ch.probe("session-opened")
             desc = (f"client {c.name} ({c.ident!r}) script {script!r} {'inside' if in_view else 'outside'} the view, accept header={accept}, "
                     f"draining={draining}: result {res!r} error {err!r} kind {err.error_kind if err else None!r}; steps: {steps}")
+            if "D" in script:
+                ch.fault("drain.inside-method")
+                opens_after = [k for k, op in enumerate(script) if op in "oO" and k > script.index("D")]
+                if gained and opens_after:
+                    ctx.violation(PROPERTY, "open-while-draining", "registered-after-drain-inside-the-request",
+                                  "drain() was called while the request was inside its method, and an open_session() AFTER it still "
+                                  "registered a session: " + desc)
+                    return False
             if gained and not accept:
                 ctx.violation(PROPERTY, "open-without-optin", "in-view" if in_view else "plain-proxy", "a session was registered for a request "
                               "without VGI-Session-Accept: " + desc)
